@@ -199,6 +199,35 @@ def replaceVoucher (V : Variant) (s : Store) (g g' : Guid) (ext : Bool) (v : Byt
     | none => (s, .notFound)                             -- new voucher removed again
     | some _ => ({ s with vouchers := upd (upd s.vouchers g' (some v)) g none }, .ok)
 
+
+/-! ### ReplaceVoucher interrupted (the request's context ends between its statements)
+
+`DB.ReplaceVoucher` is not a transaction: it inserts the replacement, then deletes the old voucher; when the
+deletion fails because the request's context has ended it removes the replacement again under a context of
+its own. `Cut` says where the request's context ends. -/
+inductive Cut
+  | none            -- not interrupted
+  | beforeInsert    -- the INSERT of the replacement already fails
+  | afterInsert     -- the replacement is in, the DELETE of the old voucher fails
+deriving DecidableEq, Repr
+
+def replaceVoucherCut (s : Store) (g g' : Guid) (ext : Bool) (v : Bytes) : Cut → Store × Result
+  | .none => replaceVoucher .repaired s g g' ext v
+  | .beforeInsert => (s, .error)
+  | .afterInsert =>
+    if ext ∨ g = g' ∨ (s.vouchers g').isSome then (s, .error)
+    else
+      let s₁ := { s with vouchers := upd s.vouchers g' (some v) }     -- inserted
+      -- the deletion of `g` fails; best effort: the replacement is removed again
+      ({ s₁ with vouchers := upd s₁.vouchers g' none }, .error)
+
+/-- the behaviour of the seeded change C03-9: the roll-back runs under the dead context and fails too -/
+def replaceVoucherCutNoRollback (s : Store) (g g' : Guid) (ext : Bool) (v : Bytes) : Cut → Store × Result
+  | .afterInsert =>
+    if ext ∨ g = g' ∨ (s.vouchers g').isSome then (s, .error)
+    else ({ s with vouchers := upd s.vouchers g' (some v) }, .error)
+  | c => replaceVoucherCut s g g' ext v c
+
 def step {Raw : Type} (V : Variant) (mac : Raw → Auth) (s : Store) : Op Raw → Store × Result
   | .newToken t p => ({ s with tokens := upd s.tokens t (some (p, fun _ => none)) }, .ok)
   | .invalidate r =>
